@@ -116,6 +116,7 @@ def run(rep, tier):
             lib, raws = sc.lib_ir(tag, defs=defs, target=target)
             mod = irload.load(lib)
             rep.coverage.setdefault('rewind_events', {})[tag] = rewind_clause(rep, mod, tag, 'C07')
+            rep.coverage.setdefault('cmp_outcomes', {})[tag] = cmp_spec(rep, mod, 'C07')
     rep.coverage.update({
         'rule': 'on every abstract path through the overshoot branch: cursor after the rewind == cursor at the head of the iteration that read the name; '
                 'level flags == EXPECTING_FIELD; current_name not stored in that iteration; the step returns false',
@@ -123,3 +124,82 @@ def run(rep, tier):
         'explanation': 'decides the rewind clause only (a failed lookup never loses or corrupts the next field); found-iff-present is value-level',
     })
     rep.assumptions += ['the overshoot branch is recognised semantically as the store that moves the cursor backwards']
+
+
+# ------------------------------------------------------------------------------------------------------------------
+# functional specification of the name comparison relative to memcmp ("names are compared bytewise over their full length")
+
+def cmp_spec(rep, mod, prop='C07'):
+    from engine.contracts import Contracts
+    from engine.absval import Region, Ptr as P_
+    from engine.lin import Aff
+    fn = mod.functions.get('_cmp_name')
+    need(fn is not None, '%s: _cmp_name not found' % prop)
+    C = Contracts(mod, LibHooks())
+    lay = C.lay
+    st = C.I.new_state()
+    la = st.fresh('cmp:len_a', lay.szw, 0, lay.objmax)
+    lb = st.fresh('cmp:len_b', lay.szw, 0, lay.objmax)
+    st.add_region(Region('SA', 'span', Aff.sym(la), readonly=True, content='bytes'))
+    st.add_region(Region('SB', 'span', Aff.sym(lb), readonly=True, content='bytes'))
+    for nm, ln, rg in (('A', la, 'SA'), ('B', lb, 'SB')):
+        st.add_region(Region(nm, 'obj', Aff(2 * lay.ptr)))
+        st.mem[nm] = {}
+        st.owned.add(nm)
+        C.setcell(st, nm, lay.bbuf['bsize'][0], lay.ptr, Int(lay.szw, Aff.sym(ln)))
+        C.setcell(st, nm, lay.bbuf['bptr'][0], lay.ptr, P_(rg, Aff(0)))
+    st.frames = [C._root_frame()]
+    mark = len(C.hooks.log)
+    outs = C.I.call_function(st, fn, [P_('A', Aff(0)), P_('B', Aff(0))], None)
+    bad_mem = [x for x in C.hooks.log[mark:] if x[0] == 'ob' and not x[2]]
+    rep.ob(not bad_mem, '_cmp_name:CMP-MEM', '%s _cmp_name reads outside its two spans: %s' % (prop, [x[4] for x in bad_mem][:2]), '')
+    A_, B_ = Aff.sym(la), Aff.sym(lb)
+    zero = Int(32, Aff(0))
+    n = 0
+    for (s0, rv) in outs:
+        for (pred, name) in (('eq', 'equal'), ('slt', 'less'), ('sgt', 'greater')):
+            s = s0.copy()
+            subs = C.I.ops.assume_cmp(s, pred, rv, zero, True) if isinstance(rv, Int) else []
+            for s1 in subs:
+                n += 1
+                S = s1.store
+                evs = [e for e in s1.eventlist() if e[0] == 'memcmp']
+                ok = False
+                why = ''
+                if len(evs) == 1:
+                    _, pa, pb, nn, r = evs[0]
+                    spans = isinstance(pa, P_) and isinstance(pb, P_) and {pa.region, pb.region} == {'SA', 'SB'} and S.entails_eq0(pa.off) and S.entails_eq0(pb.off)
+                    flip = isinstance(pa, P_) and pa.region == 'SB'
+                    full = S.entails_ge0(A_.sub(nn.a)) and S.entails_ge0(B_.sub(nn.a)) and (S.entails_eq0(nn.a.sub(A_)) or S.entails_eq0(nn.a.sub(B_)))
+                    rneg = S.entails_ge0(r.a.sub(1 << 31))
+                    rpos = S.entails_ge0(r.a.sub(1)) and S.entails_ge0(r.a.neg().add((1 << 31) - 1))
+                    rzero = S.entails_eq0(r.a)
+                    if flip:
+                        rneg, rpos = rpos, rneg
+                    if name == 'equal':
+                        ok = spans and full and rzero and S.entails_eq0(A_.sub(B_))
+                    elif name == 'less':
+                        ok = spans and full and (rneg or (rzero and S.entails_ge0(B_.sub(A_).sub(1))))
+                    else:
+                        ok = spans and full and (rpos or (rzero and S.entails_ge0(A_.sub(B_).sub(1))))
+                    why = 'memcmp over n=%r (covers the shorter name: %s), result sign known: neg=%s zero=%s pos=%s' % (nn, full, rneg, rzero, rpos)
+                elif not evs:
+                    # no byte comparison on this path: only sound when the common prefix is empty
+                    empty = S.entails_eq0(A_) or S.entails_eq0(B_)
+                    if name == 'equal':
+                        ok = empty and S.entails_eq0(A_.sub(B_))
+                    elif name == 'less':
+                        ok = empty and S.entails_ge0(B_.sub(A_).sub(1))
+                    else:
+                        ok = empty and S.entails_ge0(A_.sub(B_).sub(1))
+                    why = 'no memcmp on this path; one name empty: %s' % empty
+                else:
+                    why = '%d memcmp calls on one path' % len(evs)
+                rep.ob(ok, '_cmp_name:CMP-SPEC:%s' % name,
+                       '%s _cmp_name can answer "%s" without the bytewise/full-length order saying so (%s)' % (prop, name, why),
+                       'specification: result < 0 iff memcmp over the common prefix is negative, or it is zero and the first name is shorter; '
+                       '0 iff equal bytes and equal lengths; > 0 otherwise.\npath:\n  ' +
+                       '\n  '.join('%s:%d:%s' % p if p[1] else p[2] for p in s1.pathlist()[-8:]),
+                       sample={'answer': name, 'justified_by': why})
+    need(n >= 3, '%s: _cmp_name has fewer than 3 classified outcomes (%d)' % (prop, n))
+    return n
